@@ -205,6 +205,26 @@ def correspondence(rep, ctx):
             if mo[0] != "ok" or abs(qf - mo[1]) > Fraction(1, 10**14) * abs(mo[1]):
                 fail(desc, f"stores {float(qf)!r} atoms (x ln2 for activity); the amount read to 15 digits gives {mo[1] and float(mo[1])!r}")
     rep.corr["exhaustive"] = thorough
+    # ---- subtract() of a nuclide the inventory does not hold: its reading in the unit of the input is 0 - q (both classes)
+    for C in (rd.Inventory, rd.InventoryHP):
+        for nm, u, q in (("Co-60", "Bq", 2.5), ("Cs-137", "g", 4.0), ("Sr-90", "mmol", 0.125), ("H-3", "num", 7.0), ("Ra-226", "Ci", 1.5)):
+            desc = f"{C.__name__}({{'K-40': 1.0}}, 'mol').subtract({{{nm!r}: {q!r}}}, {u!r})"
+            rep.case(("subtract-absent", C.__name__, nm, u))
+            rep.dist("subtract-absent-nuclide")
+            try:
+                inv = C({"K-40": 1.0}, "mol")
+                inv.subtract({nm: q}, u)
+                conv = rd.converters.UnitConverterFloat
+                got = F((inv.activities(u) if u in conv.activity_units else inv.masses(u) if u in conv.mass_units
+                         else inv.moles(u) if u in conv.moles_units else inv.numbers())[nm])
+                if abs(got + F(q)) > 8 * ULP * F(q):
+                    fail(desc, f"{nm} reads back {float(got)!r} {u}, expected {-q!r}")
+                inv.add({nm: q}, u)
+                back = F(inv.numbers()[nm])
+                if abs(back) > Fraction(1, 10**3):
+                    fail(desc, f"then add() of the same input leaves {float(back)!r} atoms instead of 0")
+            except Exception as e:  # noqa: BLE001
+                fail(desc, f"raised {type(e).__name__}: {e}")
     # ---- "mass = moles x THE DATASET'S atomic mass": two revisions of a synthetic dataset under ONE name, loaded from two
     #      directories in this process, with different atomic masses and half-lives — each class must use the data of the
     #      dataset object it was given
